@@ -1158,7 +1158,7 @@ func (fr *Frame) unop(v *ssa.UnOp, st *State) {
 			if m, ok := fr.cellMeta[loc.Base]; ok {
 				nv.Clo, nv.Loc = m.Clo, m.Loc
 			}
-			if m, ok := e.cellVal[loc.Base]; ok && e.localRefs[m] {
+			if m, ok := e.cellVal[loc.Base]; ok && (e.localRefs[m] || fr.isUnshared(m)) {
 				e.localRefs[nv.T] = true
 			}
 		}
